@@ -323,6 +323,11 @@ func genXDir(r *Rand) string {
 		if w >= 3 && r.Chance(1, 3) {
 			start = r.Range(90, 1100)
 		}
+		if r.Chance(1, 10) {
+			// frame numbers beyond 32 bits (epoch milliseconds)
+			w = 13
+			start = 1712345678000 + r.Range(0, 900)
+		}
 		step := r.PickInt([]int{1, 1, 2, 3, 5})
 		var frames []int
 		seen := map[int]bool{}
